@@ -79,7 +79,8 @@ impl Executor for BashScriptExecutor {
         testcases: &[&TestCase],
         context: &ExecutionContext,
     ) -> Result<Vec<Output>> {
-        let testcase = compile_testcase(testcases, context)?;
+        let salt = random_string(SUFFIX_RANDOM_SIZE);
+        let testcase = compile_testcase(testcases, context, &salt)?;
         let runner = SubprocessRunner(self.0.to_owned());
         let output = runner
             .run("script", &testcase, context)
@@ -113,6 +114,7 @@ impl Executor for BashScriptExecutor {
         iterate_divided_output(
             "STDOUT",
             (&output.stdout).into(),
+            &salt,
             |_index: usize, out: &[u8], exit_code: i32| {
                 outputs.push(Output {
                     stderr: vec![].into(),
@@ -147,6 +149,7 @@ impl Executor for BashScriptExecutor {
             iterate_divided_output(
                 "STDERR",
                 (&output.stderr).into(),
+                &salt,
                 |index: usize, out: &[u8], _exit_code: i32| {
                     if index >= outputs.len() {
                         return Err(ExecutionError::aborted(
@@ -171,7 +174,11 @@ impl Executor for BashScriptExecutor {
 /// Reduce a list of [`TestCase`] into a single one that has as it's shell
 /// expression a compiled bash script that executes all expressions and that
 /// uses a shared configuration
-fn compile_testcase(testcases: &[&TestCase], context: &ExecutionContext) -> Result<TestCase> {
+fn compile_testcase(
+    testcases: &[&TestCase],
+    context: &ExecutionContext,
+    salt: &str,
+) -> Result<TestCase> {
     let mut config = TestCaseConfig::empty();
 
     // iterate all test cases and make sure that they have a consistent configuration
@@ -215,7 +222,7 @@ fn compile_testcase(testcases: &[&TestCase], context: &ExecutionContext) -> Resu
     }
 
     // create a bash script that executes all testcases
-    let script = compile_script(testcases, &config)?;
+    let script = compile_script(testcases, &config, salt)?;
 
     // the environment variables are already exported in the compiled script
     config.environment.clear();
@@ -242,11 +249,10 @@ fn remove_dividers_from_output(output: &OutputStream) -> OutputStream {
 }
 
 /// Compiles all shell expressions of a list of [`TestCase`]s into a single bash script
-fn compile_script(testcases: &[&TestCase], config: &TestCaseConfig) -> Result<String> {
+fn compile_script(testcases: &[&TestCase], config: &TestCaseConfig, salt: &str) -> Result<String> {
     use std::borrow::Cow;
 
     let mut expressions = vec![];
-    let salt = random_string(SUFFIX_RANDOM_SIZE);
     for (index, testcase) in testcases.iter().enumerate() {
         if testcase.config.timeout.is_some() {
             return Err(ExecutionError::failed(
@@ -281,7 +287,7 @@ fn compile_script(testcases: &[&TestCase], config: &TestCaseConfig) -> Result<St
         expressions.push(testcase.shell_expression.to_string());
 
         // add footer that divides from next execution and captures exit code
-        let footer = generate_divider(&salt, index);
+        let footer = generate_divider(salt, index);
         expressions.push("".to_string());
         expressions.push(format!(r#"echo "{}""#, &footer));
         if config.output_stream != Some(OutputStreamControl::Combined) {
@@ -292,15 +298,15 @@ fn compile_script(testcases: &[&TestCase], config: &TestCaseConfig) -> Result<St
     Ok(expressions.join("\n"))
 }
 
-fn iterate_divided_output<C>(name: &str, output: &[u8], mut callback: C) -> Result<()>
+fn iterate_divided_output<C>(name: &str, output: &[u8], salt: &str, mut callback: C) -> Result<()>
 where
     C: FnMut(usize, &[u8], i32) -> Result<()>,
 {
     let mut buffer = vec![];
     let mut expected_index = 0;
     for line in output.split_at_newline() {
-        let divider =
-            parse_divider_bytes(line).map_err(|err| ExecutionError::failed(expected_index, err))?;
+        let divider = parse_salted_divider_bytes(line, salt)
+            .map_err(|err| ExecutionError::failed(expected_index, err))?;
         match divider {
             DividerSearch::NotFound => buffer.push(line.to_vec()),
             DividerSearch::Found {
@@ -350,6 +356,35 @@ enum DividerSearch {
         exit_code: i32,
     },
     NotFound,
+}
+
+/// Like [`parse_divider_bytes`], but only a divider that carries the salt of this
+/// very execution is one: output that merely looks like a divider is output
+fn parse_salted_divider_bytes(line: &[u8], salt: &str) -> anyhow::Result<DividerSearch> {
+    let line = line.trim_newlines();
+    let divider_start = [DIVIDER_PREFIX_BYTES, salt.as_bytes(), b"::"].concat();
+    let index = line
+        .windows(divider_start.len())
+        .position(|window| window == &divider_start[..]);
+    let Some(index) = index else {
+        return Ok(DividerSearch::NotFound);
+    };
+    match parse_divider_bytes(&line[index..])? {
+        DividerSearch::Found {
+            prefix: _,
+            output_index,
+            exit_code,
+        } => Ok(DividerSearch::Found {
+            prefix: if index > 0 {
+                Some(line[0..index].to_vec())
+            } else {
+                None
+            },
+            output_index,
+            exit_code,
+        }),
+        DividerSearch::NotFound => Ok(DividerSearch::NotFound),
+    }
 }
 
 /// Extracts index and exit code from lines that contain the divider. Output
